@@ -1091,7 +1091,18 @@ static ASTNode *parse_prefix_op(Stage1Parser *p) {
                 capacity *= 2;
                 args = realloc(args, sizeof(ASTNode*) * capacity);
             }
-            args[count++] = parse_expression(p);
+            ASTNode *arg = parse_expression(p);
+            if (!arg) {
+                /* No expression could be parsed at this token (error already
+                 * reported): the cursor did not move, so looping again would
+                 * never terminate. Give up on this operation. */
+                for (int i = 0; i < count; i++) {
+                    free_ast(args[i]);
+                }
+                free(args);
+                return NULL;
+            }
+            args[count++] = arg;
         }
 
         if (!expect(p, TOKEN_RPAREN, "Expected ')' after prefix operation")) {
@@ -1132,7 +1143,17 @@ static ASTNode *parse_prefix_op(Stage1Parser *p) {
                 capacity *= 2;
                 args = realloc(args, sizeof(ASTNode*) * capacity);
             }
-            args[count++] = parse_expression(p);
+            ASTNode *arg = parse_expression(p);
+            if (!arg) {
+                /* See above: stop instead of retrying at the same token. */
+                for (int i = 0; i < count; i++) {
+                    free_ast(args[i]);
+                }
+                free(args);
+                free(func_name);
+                return NULL;
+            }
+            args[count++] = arg;
         }
 
         if (!expect(p, TOKEN_RPAREN, "Expected ')' after function call")) {
